@@ -1,6 +1,7 @@
 package inactivity
 
 import (
+	"sync"
 	"time"
 	"unsafe"
 
@@ -37,9 +38,15 @@ type KeepAliveMonitor[C Conn] struct {
 	keepAlive *KeepAlive[C]
 	// end of the last period that was reported to the keep-alive (time.Time)
 	lastReport atomic.Value
+	// A received message (reset of the count, new time stamp) and a tick's decision (time stamp read, period
+	// counted) are one step each: the reset of a message that the tick has not seen must not be overwritten by
+	// the tick's count. Never held while a ping is written or the connection is closed.
+	mutex sync.Mutex
 }
 
 func (m *KeepAliveMonitor[C]) Notify() {
+	m.mutex.Lock()
+	defer m.mutex.Unlock()
 	m.keepAlive.resetFails()
 	m.Monitor.Notify()
 }
@@ -52,16 +59,20 @@ func (m *KeepAliveMonitor[C]) CheckInactivity(now time.Time, cc C) {
 	if m.duration == time.Duration(0) {
 		return
 	}
+	verifhook.Yield("keepalive.check.beforeCount", 0)
+	m.mutex.Lock()
 	start := m.LastActivity()
 	if t, ok := m.lastReport.Load().(time.Time); ok && t.After(start) {
 		start = t
 	}
 	if !now.After(start.Add(m.duration)) {
+		m.mutex.Unlock()
 		return
 	}
-	verifhook.Yield("keepalive.check.beforeCount", 0)
 	m.lastReport.Store(now)
-	m.keepAlive.OnInactive(cc)
+	fails := m.keepAlive.incrementFails()
+	m.mutex.Unlock()
+	m.keepAlive.afterInactivePeriod(cc, fails)
 }
 
 // NewMonitor creates the inactivity monitor for the keep-alive.
@@ -78,7 +89,11 @@ func (m *KeepAlive[C]) checkCancelPing() {
 }
 
 func (m *KeepAlive[C]) OnInactive(cc C) {
-	v := m.incrementFails()
+	m.afterInactivePeriod(cc, m.incrementFails())
+}
+
+// afterInactivePeriod acts on a period that has been counted as the v-th one in a row.
+func (m *KeepAlive[C]) afterInactivePeriod(cc C, v uint32) {
 	m.checkCancelPing()
 	if v > m.maxRetries {
 		m.onInactive(cc)
